@@ -64,7 +64,7 @@ func h32(tag string) []byte { return crypto.Hash([]byte(tag)) }
 func mkTx(h uint64, i int, hash []byte) *lib.TxResult {
 	return &lib.TxResult{Sender: hash[:20], Recipient: hash[12:32], MessageType: "send", Height: h, Index: uint64(i),
 		Transaction: &lib.Transaction{MessageType: "send", Signature: &lib.Signature{PublicKey: hash, Signature: hash}, CreatedHeight: h, Time: 1, Fee: 1, NetworkId: 1, ChainId: 1},
-		TxHash: lib.BytesToString(hash)}
+		TxHash:      lib.BytesToString(hash)}
 }
 
 // view returns the indexer to read ("live" or "ro:v") and a closer
@@ -208,10 +208,29 @@ func (c *kase) getBlockByHeight(vw string, h uint64, headerOnly bool) blockObs {
 		if sameBlock(again, want, !headerOnly) {
 			c.fail(sigCache, fmt.Sprintf("%s answered %q; the committed history as of that view says %s; with the cache purged the same call answers %q", line, got.String(), showRef(want), again.String()))
 		} else {
-			c.fail("C10:block-read-differs-from-committed-history", fmt.Sprintf("%s answered %q (and %q with the cache purged); committed history says %s", line, got.String(), again.String(), showRef(want)))
+			sig := "C10:block-read-differs-from-committed-history"
+			extra := c.abandonedBlock(again.hash) && (want == nil || !bytes.Equal(want.hash, again.hash))
+			for _, t := range again.txs {
+				if c.abandonedBlock(t) && (want == nil || !containsHash(want.txs, t)) {
+					extra = true
+				}
+			}
+			if extra && vw != "live" {
+				sig = sigRolledBack
+			}
+			c.fail(sig, fmt.Sprintf("%s answered %q (and %q with the cache purged); committed history says %s", line, got.String(), again.String(), showRef(want)))
 		}
 	}
 	return got
+}
+
+func containsHash(l [][]byte, h []byte) bool {
+	for _, x := range l {
+		if bytes.Equal(x, h) {
+			return true
+		}
+	}
+	return false
 }
 
 func showRef(e *refBlock) string {
@@ -254,7 +273,16 @@ func (c *kase) getBlockByHash(vw string, hash []byte) {
 		}
 	}
 	if !sameBlock(got, want, true) {
-		c.fail("C10:block-by-hash-differs-from-committed-history", fmt.Sprintf("gbx %s %x answered %q, committed history says %s", vw, hash, got.String(), showRef(want)))
+		sig := "C10:block-by-hash-differs-from-committed-history"
+		if want == nil && c.abandonedBlock(got.hash) {
+			sig = sigRolledBack
+		}
+		for _, t := range got.txs {
+			if c.abandonedBlock(t) && (want == nil || !containsHash(want.txs, t)) {
+				sig = sigRolledBack
+			}
+		}
+		c.fail(sig, fmt.Sprintf("gbx %s %x answered %q, committed history says %s", vw, hash, got.String(), showRef(want)))
 	}
 	c.o.Count("oracle:block-by-hash")
 }
@@ -364,6 +392,19 @@ func (c *kase) getTxs(vw string, h uint64) {
 		res += " " + drv.Hex(t)
 	}
 	c.op(fmt.Sprintf("gtxs %s %d", vw, h), res)
+	if vw == "live" && len(c.pendIdx) != 0 {
+		return
+	}
+	var want [][]byte
+	if e := c.refBlockAt(c.viewVersion(vw), h, false); e != nil {
+		want = e.txs
+	}
+	for _, t := range got {
+		if c.abandonedBlock(t) && !containsHash(want, t) {
+			c.fail(sigRolledBack, fmt.Sprintf("gtxs %s %d answered %s; tx %x belongs to a block that was rolled back, the committed history at that height has %d txs", vw, h, res, t, len(want)))
+			break
+		}
+	}
 }
 
 // rview picks a view: the store itself or a read-only view at some version
@@ -427,11 +468,31 @@ func (c *kase) commitIndex() {
 	c.pendIdx = nil
 }
 
+// abandonedBlock: hash is the hash of a block (or of one of its txs) that a Rollback erased
+func (c *kase) abandonedBlock(hash []byte) bool {
+	if len(hash) == 0 {
+		return false
+	}
+	for _, e := range c.abandonedIdx {
+		if bytes.Equal(e.hash, hash) {
+			return true
+		}
+		for _, t := range e.txs {
+			if bytes.Equal(t, hash) {
+				return true
+			}
+		}
+	}
+	return false
+}
+
 func (c *kase) rollbackIndex() {
 	var keep []refBlock
 	for _, e := range c.idx {
 		if e.ver <= c.ref.version {
 			keep = append(keep, e)
+		} else {
+			c.abandonedIdx = append(c.abandonedIdx, e)
 		}
 	}
 	c.idx = keep
